@@ -80,7 +80,7 @@ def _worker(task):
     modname, part, nparts, seed, tier = task
     mod = common.module(modname)
     sc = G.budget_scale(mod)
-    P = G.scaled_params(PARAMS[tier], sc)
+    P = G.scaled_params(PARAMS[tier], sc, tier)
     rng = G.task_rng(seed, PROPERTY, modname, part)
     fnd, st = G.Findings(), G.Stats()
     rf = G.relfile(mod)
@@ -111,7 +111,7 @@ def _worker(task):
         if kind is not None:
             site = '%s:validate:%s[%s]' % (rf, kind, sl)
             observed = 'compact = %s; validate(x) %s; validate(y) %s' % (G.short(cx, 30), _descr(ox), _descr(oy))
-            fnd.add(modname, 'validate', site, len(x) + len(y) + len(kw), repr((x, y, G.kw_key(kw)))[:300],
+            fnd.add(modname, 'validate', site, G.wsize(kw, x, y), repr((x, y, G.kw_key(kw)))[:300],
                     lambda: G.make_case(modname, 'validate', [x, y], kw, observed, EXPECT, site, kind,
                                         generator=gen, decoration=lab))
         if len(samples) < 10 and not any(s['gen'] == gen and s['decoration'].split(':')[0] == lab.split(':')[0]
